@@ -435,6 +435,33 @@ var mutators = []mutator{
 		h := c.height - c.bs.v.maturity + int32(a)
 		c.txs = append(c.txs, c.pay(1, 0, c.sp(c.cbAt(h))))
 	}},
+	// the same through an output that is NOT the first of its coinbase (the coinbase flag is per output)
+	{"maturity2", []int64{-1, 0, 1}, always, func(c *cand, a int64) {
+		h := c.height - c.bs.v.maturity + int32(a)
+		op := c.cbAt(h)
+		if _, ok := c.p.utxo[c.bs.cbOp(h, kP2PKH)]; ok {
+			op = c.bs.cbOp(h, kP2PKH)
+		}
+		c.txs = append(c.txs, c.pay(1, 0, c.sp(op)))
+	}},
+	// a transaction spending an output of this very block's coinbase (immature by definition); output 0 / output 1
+	{"owncb", []int64{0, 1}, always, func(c *cand, a int64) {
+		var keep []*wire.MsgTx
+		for _, t := range c.txs {
+			if !t.HasWitness() {
+				keep = append(keep, t) // without witness data there is no commitment, so the coinbase id is fixed
+			}
+		}
+		c.txs = keep
+		c.commit = "none"
+		c.cbOuts = append(c.cbOuts, txOut(5000, kTrue))
+		c.cbDelta = -5000
+		cb := c.block().Transactions[0]
+		op := wire.OutPoint{Hash: cb.TxHash(), Index: uint32(a)}
+		v := cb.TxOut[a].Value
+		c.txs = append(c.txs, c.bs.b.mkTx(1, 0, []spend{{op: op, c: coin{amount: v, script: pkScriptOf(kTrue), k: kTrue}, seq: wire.MaxTxInSequenceNum}},
+			[]*wire.TxOut{txOut(v, kTrue)}))
+	}},
 	// output value: MaxSatoshi+1, negative; sum of outputs > MaxSatoshi
 	{"outvalue", []int64{btcutil.MaxSatoshi + 1, -1, 1}, always, func(c *cand, a int64) {
 		t := c.txs[1]
